@@ -620,8 +620,8 @@ class MapMapper(Mapper):
         items = f"[{adjusted_key_type}, {value_type}]"
         params = {
             "items": items,
-            "maxItems": schema.get("maxItems", None),
-            "minItems": schema.get("minItems", None),
+            "maxItems": schema.get("maxProperties", schema.get("maxItems", None)),
+            "minItems": schema.get("minProperties", schema.get("minItems", None)),
         }
         return list((k, v) for k, v in params.items() if v is not None)
 
@@ -646,8 +646,10 @@ class MapMapper(Mapper):
                 params[SCHEMA_PATTERN_PROPERTIES] = {pattern_props: values_schema}
             elif values_schema:
                 params[SCHEMA_ADDITIONAL_PROPERTIES] = values_schema
-        params["maxItems"] = value.maxItems
-        params["minItems"] = value.minItems
+        # the size of an object is bounded by minProperties / maxProperties
+        # (minItems / maxItems apply to arrays only)
+        params["maxProperties"] = value.maxItems
+        params["minProperties"] = value.minItems
         return {k: v for k, v in params.items() if v is not None}
 
 
